@@ -301,10 +301,28 @@ func init() {
 	}
 	reg("strings.Index", idx(false))
 	reg("strings.LastIndex", idx(true))
-	reg("strings.IndexByte", func(in *Interp, fn *ssa.Function, args []value) (value, bool) {
-		s := args[0].(*Str)
-		b := args[1].(*Term)
-		return BVi(64, int64(in.indexBytes(in.strBytes(s, "IndexByte"), []*Term{b}))), true
+	byteIdx := func(last bool) summaryFn {
+		return func(in *Interp, fn *ssa.Function, args []value) (value, bool) {
+			s := args[0].(*Str)
+			b := args[1].(*Term)
+			if s.Kind != sBytes && b.Const {
+				return idx(last)(in, fn, []value{s, lit(string([]byte{byte(b.Uint())}))})
+			}
+			if last {
+				return BVi(64, int64(in.lastIndexBytes(in.strBytes(s, "LastIndexByte"), []*Term{b}))), true
+			}
+			return BVi(64, int64(in.indexBytes(in.strBytes(s, "IndexByte"), []*Term{b}))), true
+		}
+	}
+	reg("strings.IndexByte", byteIdx(false))
+	reg("strings.LastIndexByte", byteIdx(true))
+	reg("strings.Count", func(in *Interp, fn *ssa.Function, args []value) (value, bool) {
+		s, sub := args[0].(*Str), args[1].(*Str)
+		sepc, ok := sub.Concrete()
+		if !ok || sepc == "" {
+			return nil, false
+		}
+		return BVi(64, int64(len(in.splitStr(s, sepc))-1)), true
 	})
 	reg("strings.ReplaceAll", func(in *Interp, fn *ssa.Function, args []value) (value, bool) {
 		s, old, nw := args[0].(*Str), args[1].(*Str), args[2].(*Str)
